@@ -115,7 +115,7 @@ theorem balancedAux_eq : ∀ (s : List Char) (cur : List T) (stk : List (List T)
     · subst h1; simp [balancedAux]; exact ih _ stk
     by_cases h2 : c = '+'
     · subst h2; simp [balancedAux]; exact ih _ stk
-    · simp [balancedAux, parseDPAux, h1, h2, h3, h4]
+    · simp [balancedAux, parseDPAux, h1, h2, h4]
 
 theorem balanced_eq (s : List Char) : balanced s = (parseDP s).isSome := balancedAux_eq s [] []
 
@@ -146,7 +146,7 @@ theorem isDPSym_of_balancedAux : ∀ (s : List Char) (d : Nat), balancedAux s d 
       rcases List.mem_cons.mp hc with rfl | hc
       · decide
       · exact ih _ h.2 c hc
-    · simp [balancedAux, h3, h4] at h
+    · simp [balancedAux] at h
       rcases List.mem_cons.mp hc with rfl | hc
       · simp [isDPSym]; rcases h.1 with h | h <;> simp [h]
       · exact ih _ h.2 c hc
@@ -187,7 +187,7 @@ theorem countParens_spec : ∀ (fuel : Nat) (l : List T),
       simp [countParens, List.replicate_succ']
       refine ⟨?_, by omega⟩
       conv => lhs; rw [this.1]
-      simp [List.replicate_succ, rep_comm]
+      simp [rep_comm]
     | _ :: _ :: _ => simp [countParens]
 
 theorem expand_toHU_fuel : ∀ (fuel : Nat) (ts : List T), sizeL ts < fuel → expandL (toHU fuel ts) = flatL ts := by
@@ -211,7 +211,7 @@ theorem expand_toHU_fuel : ∀ (fuel : Nat) (ts : List T), sizeL ts < fuel → e
       have := countParens_spec f inner
       simp [toHU, expandL, HU.expand, ih r (by omega), ih _ (by omega : sizeL (countParens f inner).2 < f)]
       rw [this.1]
-      simp [List.replicate_succ, List.replicate_succ', rep_comm]
+      simp [List.replicate_succ, rep_comm]
 
 theorem expand_toHU (ts : List T) : expandL (toHU (sizeL ts + 1) ts) = flatL ts :=
   expand_toHU_fuel _ ts (by omega)
@@ -418,9 +418,9 @@ theorem tokenize_digit_cons (c : Char) (r : List Char) (h : c.isDigit = true) :
 
 theorem tokenize_append (a b : List Char) (hb : ndh b) : tokenize (a ++ b) = tokenize a ++ tokenize b := by
   fun_induction tokenize a with
-  | case1 => simp [tokenize]
+  | case1 => simp
   | case2 c r h ih => simp [tokenize_ws_cons _ _ h, ih]
-  | case3 c r h1 h2 ih =>
+  | case3 c r h1 h2 _ ih =>
     simp at h1
     simp [tokenize_digit_cons _ _ h2, takeNum_append _ _ _ hb, ih]
   | case4 c r h1 h2 ih =>
@@ -442,21 +442,247 @@ theorem tokenize_dropWhile (s : List Char) : tokenize (s.dropWhile isWs) = token
   | nil => simp
   | cons c r ih =>
     by_cases hc : isWs c = true
-    · simp [List.dropWhile_cons, hc, ih, tokenize_ws_cons _ _ hc]
-    · simp [List.dropWhile_cons, hc]
+    · simp [hc, ih, tokenize_ws_cons _ _ hc]
+    · simp [hc]
 
 theorem tokenize_stripWs (s : List Char) : tokenize (stripWs s) = tokenize s := by
   have hs : s = (s.reverse.dropWhile isWs).reverse ++ (s.reverse.takeWhile isWs).reverse := by
     rw [← List.reverse_append, List.takeWhile_append_dropWhile, List.reverse_reverse]
   have hw : ∀ c ∈ (s.reverse.takeWhile isWs).reverse, isWs c = true := by
     intro c hc
-    exact List.mem_takeWhile_imp (List.mem_reverse.mp hc)
+    exact List.all_eq_true.mp List.all_takeWhile c (List.mem_reverse.mp hc)
   unfold stripWs
   rw [tokenize_dropWhile]
   conv => rhs; rw [hs, tokenize_append _ _ (ndh_all_ws _ hw), tokenize_all_ws _ hw]
   simp
 
-theorem natStr_spec (n : Nat) : (∀ c ∈ natStr n, c.isDigit = true) ∧ natStr n ≠ [] ∧ ∀ acc, digVal (natStr n) acc = acc * 10 ^ (natStr n).length + n := by
-  sorry
+theorem digVal_snoc (a : List Char) (d : Char) (acc : Nat) :
+    digVal (a ++ [d]) acc = digVal a acc * 10 + (d.toNat - 48) := by
+  induction a generalizing acc with
+  | nil => simp [digVal]
+  | cons c r ih => simp [digVal, ih]
+
+theorem natStr_spec (n : Nat) :
+    (∀ c ∈ natStr n, c.isDigit = true) ∧ natStr n ≠ [] ∧ digVal (natStr n) 0 = n := by
+  fun_induction natStr n with
+  | case1 n h =>
+    have := digit_ofNat n h
+    simp [digVal, this]
+  | case2 n h ih =>
+    have := digit_ofNat (n % 10) (by omega)
+    refine ⟨?_, by simp, ?_⟩
+    · intro c hc
+      rcases List.mem_append.mp hc with hc | hc
+      · exact ih.1 c hc
+      · simp at hc; subst hc; exact this.1
+    · rw [digVal_snoc, ih.2.2, this.2]; omega
+
+theorem tokenize_natStr (n : Nat) (rest : List Char) (hr : ndh rest) :
+    tokenize (natStr n ++ rest) = Tok.num n :: tokenize rest := by
+  obtain ⟨hd, hne, hv⟩ := natStr_spec n
+  cases hn : natStr n with
+  | nil => exact absurd hn hne
+  | cons c ds =>
+    rw [hn] at hd hv
+    have hc := hd c (by simp)
+    have hds : ∀ c ∈ ds, c.isDigit = true := fun c hc => hd c (by simp [hc])
+    simp [digVal] at hv
+    simp [tokenize_digit_cons _ _ hc, takeNum_digits _ _ _ hds, takeNum_stop _ _ hr, hv]
+
+theorem tokenize_renderToks (ts : List Tok)
+    (h : ∀ t ∈ ts, match t with | Tok.ch c => !c.isDigit && !isWs c | _ => true) :
+    tokenize (renderToks ts) = ts := by
+  induction ts with
+  | nil => simp [renderToks, tokenize]
+  | cons t r ih =>
+    have hr := ih (fun t ht => h t (by simp [ht]))
+    have ht := h t (by simp)
+    cases t with
+    | num n =>
+      have : ndh (' ' :: renderToks r) := by simp [ndh]
+      simp [renderToks, tokenize_natStr _ _ this, tokenize_ws_cons ' ' _ (by decide), hr]
+    | ch c =>
+      simp at ht
+      simp [renderToks, tokenize_ch_cons _ _ ht.2 ht.1, tokenize_ws_cons ' ' _ (by decide), hr]
+
+/-! ### the text printed by `dotParen2HU` tokenizes to the canonical HU tokens -/
+
+mutual
+theorem tokenize_render : ∀ (h : HU) (rest : List Char), tokenize (h.render ++ rest) = h.toks ++ tokenize rest
+  | .plus, rest => by
+    simp [HU.render, HU.toks, tokenize_ch_cons '+' _ (by decide) (by decide), tokenize_ws_cons ' ' _ (by decide)]
+  | .U n, rest => by
+    have : ndh (' ' :: rest) := by simp [ndh]
+    simp [HU.render, HU.toks, tokenize_ch_cons 'U' _ (by decide) (by decide), tokenize_natStr _ _ this,
+      tokenize_ws_cons ' ' _ (by decide)]
+  | .H n inner, rest => by
+    have ih := tokenize_renderL inner
+    have h1 : ndh ('(' :: (stripWs (renderL inner) ++ ')' :: ' ' :: rest)) := by simp [ndh]
+    have h2 : ndh (')' :: ' ' :: rest) := by simp [ndh]
+    simp [HU.render, HU.toks, tokenize_ch_cons 'H' _ (by decide) (by decide), tokenize_natStr _ _ h1,
+      tokenize_ch_cons '(' _ (by decide) (by decide), tokenize_append _ _ h2, tokenize_stripWs, ih,
+      tokenize_ch_cons ')' _ (by decide) (by decide), tokenize_ws_cons ' ' _ (by decide)]
+theorem tokenize_renderL : ∀ (hs : List HU), tokenize (renderL hs) = toksOfHU hs
+  | [] => by simp [renderL, toksOfHU, tokenize]
+  | h :: hs => by
+    have h1 := tokenize_render h (renderL hs)
+    have h2 := tokenize_renderL hs
+    simp [renderL, toksOfHU, h1, h2]
+end
+
+theorem HU2dotParen_render (h : List HU) : HU2dotParen (stripWs (renderL h)) = some (expandL h) := by
+  simp [HU2dotParen, tokenize_stripWs, tokenize_renderL, parseHU_toksOfHU]
+
+theorem hu_roundtrip (s : List Char) (h : balanced s = true) : (dotParen2HU s).bind HU2dotParen = some s := by
+  obtain ⟨ts, hp, hf⟩ := exists_of_balanced h
+  simp [dotParen2HU, hp, HU2dotParen_render, expand_toHU, hf]
+
+/-! ### domain-level expansion -/
+
+theorem splitOn_ne_nil (c : Char) (s : List Char) : splitOn c s ≠ [] := by
+  induction s with
+  | nil => simp [splitOn]
+  | cons d r ih =>
+    simp only [splitOn]
+    split
+    · simp
+    · split <;> simp
+
+theorem splitOn_not_mem (c : Char) (s : List Char) : ∀ p ∈ splitOn c s, c ∉ p := by
+  induction s with
+  | nil => simp [splitOn]
+  | cons d r ih =>
+    simp only [splitOn]
+    split
+    · simp
+    · rename_i h t heq
+      rw [heq] at ih
+      by_cases hd : d = c
+      · subst hd; simp; exact ⟨ih h (by simp), fun a ha => ih a (by simp [ha])⟩
+      · simp [hd]
+        refine ⟨⟨fun e => hd e.symm, ih h (by simp)⟩, fun a ha => ih a (by simp [ha])⟩
+
+theorem splitOn_of_not_mem (c : Char) (s : List Char) (h : c ∉ s) : splitOn c s = [s] := by
+  induction s with
+  | nil => simp [splitOn]
+  | cons d r ih =>
+    simp at h
+    have hd : d ≠ c := fun e => h.1 e.symm
+    simp [splitOn, ih h.2, hd]
+
+theorem splitOn_append_sep (c : Char) (a r : List Char) (h : c ∉ a) :
+    splitOn c (a ++ c :: r) = a :: splitOn c r := by
+  induction a with
+  | nil =>
+    simp only [List.nil_append, splitOn]
+    split
+    · rename_i heq; exact absurd heq (splitOn_ne_nil c r)
+    · rename_i heq; simp [heq]
+  | cons d a ih =>
+    simp at h
+    have hd : d ≠ c := fun e => h.1 e.symm
+    simp only [List.cons_append, splitOn, ih h.2]
+    simp [hd]
+
+theorem splitOn_joinPlus (segs : List (List Char)) (hne : segs ≠ []) (h : ∀ p ∈ segs, '+' ∉ p) :
+    splitOn '+' (joinPlus segs) = segs := by
+  induction segs with
+  | nil => exact absurd rfl hne
+  | cons a r ih =>
+    cases r with
+    | nil => simp [joinPlus, splitOn_of_not_mem _ _ (h a (by simp))]
+    | cons b r =>
+      have := ih (by simp) (fun p hp => h p (by simp [hp]))
+      simp only [joinPlus]
+      rw [splitOn_append_sep _ _ _ (h a (by simp)), this]
+
+theorem mem_expandStrand : ∀ (s : List Char) (d : List Nat) (c : Char), c ∈ expandStrand s d → c ∈ s := by
+  intro s
+  induction s with
+  | nil => intro d c h; simp [expandStrand] at h
+  | cons a r ih =>
+    intro d c h
+    cases d with
+    | nil => simp [expandStrand] at h
+    | cons n ns =>
+      simp [expandStrand] at h
+      rcases h with h | h
+      · simp [h.2]
+      · simp [ih ns c h]
+
+theorem length_expandStrand : ∀ (s : List Char) (d : List Nat), s.length = d.length →
+    (expandStrand s d).length = d.sum := by
+  intro s
+  induction s with
+  | nil => intro d h; cases d <;> simp_all [expandStrand]
+  | cons a r ih =>
+    intro d h
+    cases d with
+    | nil => simp at h
+    | cons n ns => simp at h; simp [expandStrand, ih ns h]
+
+/-- the per-strand expansions used by `domainExpand` -/
+def segsOf (subs : List (List Char)) (doms : List (List Nat)) : List (List Char) :=
+  (List.zip subs doms).map (fun (s, d) => expandStrand s d)
+
+theorem segsOf_spec : ∀ (subs : List (List Char)) (doms : List (List Nat)), subs.length = doms.length →
+    (List.zip subs doms).all (fun (s, d) => s.length == d.length) = true →
+    (segsOf subs doms).length = doms.length ∧
+    (List.zip (segsOf subs doms) (doms.map List.sum)).all (fun (s, n) => s.length == n) = true := by
+  intro subs
+  induction subs with
+  | nil => intro doms h _; cases doms <;> simp_all [segsOf]
+  | cons s subs ih =>
+    intro doms h hall
+    cases doms with
+    | nil => simp at h
+    | cons d doms =>
+      simp at h hall
+      have := ih doms h (by simpa using hall.2)
+      simp [segsOf] at this ⊢
+      exact ⟨this.1, length_expandStrand s d hall.1, this.2⟩
+
+theorem segsOf_not_mem (subs : List (List Char)) (doms : List (List Nat)) (h : ∀ p ∈ subs, '+' ∉ p) :
+    ∀ p ∈ segsOf subs doms, '+' ∉ p := by
+  intro p hp hmem
+  simp [segsOf] at hp
+  obtain ⟨s, d, hz, rfl⟩ := hp
+  exact h s (List.of_mem_zip hz).1 (mem_expandStrand s d _ hmem)
+
+theorem domainExpand_eq (struct : List Char) (doms : List (List Nat)) :
+    domainExpand struct doms =
+      if (splitOn '+' struct).length = doms.length ∧
+          (List.zip (splitOn '+' struct) doms).all (fun (s, d) => s.length == d.length) = true ∧
+          balanced (joinPlus (segsOf (splitOn '+' struct) doms)) = true
+      then some (joinPlus (segsOf (splitOn '+' struct) doms)) else none := by
+  unfold domainExpand segsOf
+  by_cases h1 : (splitOn '+' struct).length = doms.length
+  · by_cases h2 : (List.zip (splitOn '+' struct) doms).all (fun (s, d) => s.length == d.length) = true
+    · simp [h1, h2]
+    · simp [h1, h2]
+  · simp [h1]
+
+theorem domainExpand_sound {struct : List Char} {doms : List (List Nat)} {full : List Char}
+    (h : domainExpand struct doms = some full) :
+    balanced full = true ∧ sizesOk full (doms.map List.sum) = true := by
+  rw [domainExpand_eq] at h
+  split at h
+  · rename_i hc
+    obtain ⟨h1, h2, h3⟩ := hc
+    simp at h; subst h
+    refine ⟨h3, ?_⟩
+    have hspec := segsOf_spec _ _ h1 h2
+    have hne : segsOf (splitOn '+' struct) doms ≠ [] := by
+      intro e
+      have hl := hspec.1
+      rw [e] at hl
+      have := splitOn_ne_nil '+' struct
+      rw [← h1] at hl
+      exact this (List.length_eq_zero_iff.mp hl.symm)
+    have hsp := splitOn_joinPlus _ hne (segsOf_not_mem _ doms (splitOn_not_mem '+' struct))
+    unfold sizesOk
+    simp only [hsp]
+    simp [hspec.1, hspec.2]
+  · simp at h
 
 end Pepper.Notation
